@@ -59,11 +59,20 @@ DensClause(e) ==
              \/ ~Close(Mul(e.number_density.v, Mul(Sq(e.interatomic_distance.v), e.interatomic_distance.v)), Sci(1, 24), -11)
           THEN "InteratomicDistance"
      ELSE "ok"
+\* mass.mass(x), density.density(x), ... are the attributes x.mass, x.density, ... (same values through either route)
+FnClause(e) ==
+  IF "fn" \notin DOMAIN e THEN "ok"
+  ELSE IF e.fn.mass # e.mass THEN "FunctionRoute:mass"
+  ELSE IF e.fn.density # e.density THEN "FunctionRoute:density"
+  ELSE IF e.fn.number_density # e.number_density THEN "FunctionRoute:number_density"
+  ELSE IF e.fn.interatomic_distance # e.interatomic_distance THEN "FunctionRoute:interatomic_distance"
+  ELSE "ok"
 ServeClause(e) ==
   IF "exc" \in DOMAIN e THEN "ServeRaised"
   ELSE IF MassClause(e) # "ok" THEN MassClause(e)
   ELSE IF AbClause(e) # "ok" THEN AbClause(e)
-  ELSE DensClause(e)
+  ELSE IF DensClause(e) # "ok" THEN DensClause(e)
+  ELSE FnClause(e)
 \* ---- data invariants, evaluated when the tables have been read ---------------------
 SumAb(z) == LET S == {k \in DOMAIN ab : k[1] = z}
                 RECURSIVE T(_)
